@@ -6,10 +6,11 @@ Property theorems only (helper lemmas: `Lemmas/Index.lean`; model and the specif
 `FSub.denote`, `InRange`, `pos`, `Safe`, `LoopSafe`: `Model/Index.lean`).
 
 Every statement is for all dimension sizes `n`, all written integers and all loop value lists.
-`Safe cfg s` / `LoopSafe cfg …` name the subscripts on which the checks present in the tree (`cfg`) suffice;
-with the proposed checks (`Cfg.checked`) they hold for every subscript (`checked_is_safe`,
-`checked_is_loop_safe`), on the tree as it is (`Cfg.asIs`) they exclude exactly the classes listed as
-findings C23-F1..F3, and `asIs_reinterprets` shows that they cannot be dropped there.
+`Safe cfg s` / `LoopSafe cfg …` name the subscripts on which the checks present in the tree (`cfg`) suffice.
+On the tree as it is now (`Cfg.checked`, commits 4aad8e2 and b779a95) they hold for every subscript
+(`checked_is_safe`, `checked_is_loop_safe`), so the three main theorems hold there without hypothesis
+(`checked_*`).  On the tree before those commits (`Cfg.asIs`) they exclude exactly the classes recorded as
+findings C23-F1..F3, and `asIs_reinterprets` shows that they could not be dropped there.
 -/
 namespace PymocaVerif.Index
 
@@ -69,13 +70,30 @@ theorem slice_upper_bound_error (cfg : Cfg) (n : Nat) (lo hi : IntS) (hne : lo.v
 
 example : (IntS.lit 1).val ≤ (IntS.lit 4).val ∧ ((3 : Nat) : Int) < (IntS.lit 4).val := by decide
 
-/-- With the proposed checks every subscript is `Safe`: the three theorems above hold without hypothesis. -/
-theorem checked_is_safe (s : FSub) : Safe Cfg.checked s := by
-  cases s with
-  | idx k => trivial
-  | all => trivial
-  | range lo hi => exact Or.inl rfl
-  | range3 a b c => exact ⟨rfl, Or.inl rfl⟩
+/-- On the current tree every subscript is `Safe`: the three theorems above hold without hypothesis. -/
+theorem checked_is_safe (s : FSub) : Safe Cfg.checked s := checked_safe s
+
+/-- Current tree, full strength: an accepted subscript selects exactly what it denotes, inside `1..n`. -/
+theorem checked_in_range_or_error (n : Nat) (s : FSub) (ps : List Nat)
+    (h : fixedSel Cfg.checked n n s = some ps) : ∃ d, s.denote n = some d ∧ InRange n d ∧ ps = pos d :=
+  fixedSel_sound Cfg.checked n s ps (checked_is_safe s) h
+
+example : fixedSel Cfg.checked 4 4 (.range3 (.lit 1) (.lit 2) (.lit 4)) = some [0, 2] := by decide
+
+/-- Current tree, full strength: every subscript that denotes an index outside `1..n`, or has step 0, raises. -/
+theorem checked_out_of_range_error (n : Nat) (s : FSub)
+    (h : s.denote n = none ∨ ∃ d, s.denote n = some d ∧ ∃ i ∈ d, i < 1 ∨ (n : Int) < i) :
+    fixedSel Cfg.checked n n s = none :=
+  fixedSel_oob Cfg.checked n s (checked_is_safe s) h
+
+example : (FSub.range (.par (-1)) (.lit 2)).denote 3 = some [-1, 0, 1, 2] := by decide
+
+/-- Current tree, full strength: nothing is selected only when nothing is denoted. -/
+theorem checked_never_empty_silently (n : Nat) (s : FSub) (h : fixedSel Cfg.checked n n s = some []) :
+    s.denote n = some [] :=
+  never_empty_silently Cfg.checked n s (checked_is_safe s) h
+
+example : fixedSel Cfg.checked 3 3 (.range (.lit 5) (.lit 4)) = some [] := by decide
 
 /-- A loop-dependent subscript `mul*i + off` that is accepted reads, at every loop value, the element it
     denotes, and every such element exists. -/
@@ -100,6 +118,157 @@ example : LoopSafe Cfg.asIs [1, 2, 3] 1 1 ∧ ∃ v ∈ [1, 2, 3], (1 : Int) * v
 theorem checked_is_loop_safe (vals : List Int) (mul off : Int) : LoopSafe Cfg.checked vals mul off :=
   Or.inl rfl
 
+/-- End to end, current tree, `x[s]` on `Real x[n]` in an equation: if generation succeeds the residual holds
+    exactly the denoted elements, in order (an empty selection discards the equation: `norm`). -/
+theorem eq_1d_sound (n : Nat) (s : FSub) (rows : List (List Pos))
+    (h : outcome Cfg.checked ⟨.d1 n, .f1 s, none⟩ = some rows) :
+    ∃ d, s.denote n = some d ∧ InRange n d ∧ rows = norm ((pos d).map (fun p => [(p, 0)])) := by
+  simp only [outcome, outcomeEq] at h
+  cases hs : fixedSel Cfg.checked n n s with
+  | none => simp [hs] at h
+  | some ps =>
+    obtain ⟨d, hd, hr, hp⟩ := fixedSel_sound Cfg.checked n s ps (checked_safe s) hs
+    simp only [hs, Option.map_some, Option.some.injEq] at h
+    exact ⟨d, hd, hr, by rw [← h, hp]⟩
+
+/-- End to end: a subscript that must be rejected makes generation of the model raise. -/
+theorem eq_1d_error (n : Nat) (s : FSub) (h : Bad n s) : outcome Cfg.checked ⟨.d1 n, .f1 s, none⟩ = none := by
+  simp [outcome, outcomeEq, fixedSel_oob Cfg.checked n s (checked_safe s) h]
+
+/-- End to end, `x[a, b]` on `Real x[n, m]`: the residual is the sub-matrix of the denoted rows and columns. -/
+theorem eq_2d_sound (n m : Nat) (a b : FSub) (rows : List (List Pos))
+    (h : outcome Cfg.checked ⟨.d2 n m, .ff a b, none⟩ = some rows) :
+    ∃ da db, a.denote n = some da ∧ b.denote m = some db ∧ InRange n da ∧ InRange m db ∧
+      rows = norm (mat2 (pos da) (pos db)) := by
+  simp only [outcome, outcomeEq] at h
+  cases ha : fixedSel Cfg.checked n n a with
+  | none => simp [ha] at h
+  | some rs =>
+    cases hb : fixedSel Cfg.checked m m b with
+    | none => simp [ha, hb] at h
+    | some cs =>
+      obtain ⟨da, hda, hra, hpa⟩ := fixedSel_sound Cfg.checked n a rs (checked_safe a) ha
+      obtain ⟨db, hdb, hrb, hpb⟩ := fixedSel_sound Cfg.checked m b cs (checked_safe b) hb
+      simp only [ha, hb, Option.some.injEq] at h
+      exact ⟨da, db, hda, hdb, hra, hrb, by rw [← h, hpa, hpb]⟩
+
+/-- End to end: a bad subscript in either dimension makes generation raise. -/
+theorem eq_2d_error (n m : Nat) (a b : FSub) (h : Bad n a ∨ Bad m b) :
+    outcome Cfg.checked ⟨.d2 n m, .ff a b, none⟩ = none := by
+  simp only [outcome, outcomeEq]
+  rcases h with h | h
+  · rw [fixedSel_oob Cfg.checked n a (checked_safe a) h]
+  · rw [fixedSel_oob Cfg.checked m b (checked_safe b) h]
+    cases fixedSel Cfg.checked n n a <;> rfl
+
+/-- End to end, `for i in r loop x[mul*i+off] = … end for`: the loop runs over Modelica's values of the range
+    and the residual's rows are the elements denoted at each value, all of them existing. -/
+theorem loop_1d_sound (n : Nat) (r : LoopRange) (mul off : Int) (hm : mul ≠ 0) (rows : List (List Pos))
+    (h : outcome Cfg.checked ⟨.d1 n, .l1 mul off, some r⟩ = some rows) :
+    ∃ vals, r.denote = some vals ∧ InRange n (vals.map (fun v => mul * v + off)) ∧
+      rows = norm ((pos (vals.map (fun v => mul * v + off))).map (fun p => [(p, 0)])) := by
+  simp only [outcome] at h
+  cases hv : loopValues Cfg.checked r with
+  | none => simp [hv] at h
+  | some vals =>
+    simp only [hv, outcomeLoop, hm, if_false] at h
+    cases hs : loopIdxSel Cfg.checked n n vals mul off with
+    | none => simp [hs] at h
+    | some ps =>
+      obtain ⟨hr, hp⟩ := loopIdxSel_sound Cfg.checked n vals mul off ps (Or.inl rfl) hs
+      simp only [hs, Option.map_some, Option.some.injEq] at h
+      exact ⟨vals, loopValues_checked r vals hv, hr, by rw [← h, hp]⟩
+
+/-- End to end: a loop-dependent subscript leaving `1..n` at some value of the range makes generation raise. -/
+theorem loop_1d_error (n : Nat) (r : LoopRange) (mul off : Int) (hm : mul ≠ 0) (vals : List Int)
+    (hd : r.denote = some vals) (h : ∃ v ∈ vals, mul * v + off < 1 ∨ (n : Int) < mul * v + off) :
+    outcome Cfg.checked ⟨.d1 n, .l1 mul off, some r⟩ = none := by
+  simp only [outcome]
+  cases hv : loopValues Cfg.checked r with
+  | none => rfl
+  | some vals' =>
+    have := loopValues_checked r vals' hv
+    rw [hd] at this
+    have := Option.some.inj this
+    subst this
+    simp only [outcomeLoop, hm, if_false]
+    rw [loopIdxSel_oob Cfg.checked n vals mul off (Or.inl rfl) h]
+    rfl
+
+/-- End to end, `x[mul*i+off, b]` in a loop over `r`: each iteration's row holds the denoted row index with the
+    denoted columns (nothing at all when `b` denotes nothing). -/
+theorem loop_2d_row_sound (n m : Nat) (r : LoopRange) (mul off : Int) (hm : mul ≠ 0) (b : FSub)
+    (rows : List (List Pos)) (h : outcome Cfg.checked ⟨.d2 n m, .lf mul off b, some r⟩ = some rows) :
+    ∃ vals db, r.denote = some vals ∧ b.denote m = some db ∧ InRange m db ∧
+      ((db = [] ∧ rows = []) ∨
+       (InRange n (vals.map (fun v => mul * v + off)) ∧
+        rows = norm ((pos (vals.map (fun v => mul * v + off))).map (fun r => (pos db).map (fun c => (r, c)))))) := by
+  simp only [outcome] at h
+  cases hv : loopValues Cfg.checked r with
+  | none => simp [hv] at h
+  | some vals =>
+    have hvd := loopValues_checked r vals hv
+    simp only [hv, outcomeLoop, hm, if_false] at h
+    cases hb : fixedSel Cfg.checked m m b with
+    | none => simp [hb] at h
+    | some cs =>
+      obtain ⟨db, hdb, hrb, hpb⟩ := fixedSel_sound Cfg.checked m b cs (checked_safe b) hb
+      cases cs with
+      | nil =>
+        simp only [hb, Option.some.injEq] at h
+        exact ⟨vals, db, hvd, hdb, hrb, Or.inl ⟨pos_eq_nil db hpb.symm, h.symm⟩⟩
+      | cons c cs =>
+        simp only [hb] at h
+        cases hs : loopIdxSel Cfg.checked n n vals mul off with
+        | none => simp [hs] at h
+        | some ps =>
+          obtain ⟨hr, hp⟩ := loopIdxSel_sound Cfg.checked n vals mul off ps (Or.inl rfl) hs
+          simp only [hs, Option.map_some, Option.some.injEq] at h
+          exact ⟨vals, db, hvd, hdb, hrb, Or.inr ⟨hr, by rw [← h, hp, hpb]⟩⟩
+
+/-- End to end, `x[a, mul*i+off]` in a loop over `r`. -/
+theorem loop_2d_col_sound (n m : Nat) (r : LoopRange) (a : FSub) (mul off : Int) (hm : mul ≠ 0)
+    (rows : List (List Pos)) (h : outcome Cfg.checked ⟨.d2 n m, .fl a mul off, some r⟩ = some rows) :
+    ∃ vals da, r.denote = some vals ∧ a.denote n = some da ∧ InRange n da ∧
+      ((da = [] ∧ rows = []) ∨
+       (InRange m (vals.map (fun v => mul * v + off)) ∧
+        rows = norm ((pos (vals.map (fun v => mul * v + off))).map (fun c => (pos da).map (fun r => (r, c)))))) := by
+  simp only [outcome] at h
+  cases hv : loopValues Cfg.checked r with
+  | none => simp [hv] at h
+  | some vals =>
+    have hvd := loopValues_checked r vals hv
+    simp only [hv, outcomeLoop, hm, if_false] at h
+    cases ha : fixedSel Cfg.checked n n a with
+    | none => simp [ha] at h
+    | some rs =>
+      obtain ⟨da, hda, hra, hpa⟩ := fixedSel_sound Cfg.checked n a rs (checked_safe a) ha
+      cases rs with
+      | nil =>
+        simp only [ha, Option.some.injEq] at h
+        exact ⟨vals, da, hvd, hda, hra, Or.inl ⟨pos_eq_nil da hpa.symm, h.symm⟩⟩
+      | cons c cs =>
+        simp only [ha] at h
+        cases hs : loopIdxSel Cfg.checked m m vals mul off with
+        | none => simp [hs] at h
+        | some ps =>
+          obtain ⟨hr, hp⟩ := loopIdxSel_sound Cfg.checked m vals mul off ps (Or.inl rfl) hs
+          simp only [hs, Option.map_some, Option.some.injEq] at h
+          exact ⟨vals, da, hvd, hda, hra, Or.inr ⟨hr, by rw [← h, hp, hpa]⟩⟩
+
+
+example : outcome Cfg.checked ⟨.d1 3, .f1 (.range (.lit 2) (.lit 3)), none⟩ = some [[(1, 0)], [(2, 0)]] := by decide
+example : Bad 3 (.range (.lit 0) (.lit 2)) := Or.inr ⟨[0, 1, 2], by decide, 0, by decide, by decide⟩
+example : outcome Cfg.checked ⟨.d2 2 3, .ff (.idx (.lit 2)) (.range (.lit 2) (.lit 3)), none⟩
+    = some [[(1, 1), (1, 2)]] := by decide
+example : outcome Cfg.checked ⟨.d1 3, .l1 1 (-1), some (.two (.lit 2) (.lit 3))⟩ = some [[(0, 0)], [(1, 0)]] := by
+  decide
+example : outcome Cfg.checked ⟨.d1 3, .l1 1 (-1), some (.two (.lit 1) (.lit 3))⟩ = none := by decide
+example : outcome Cfg.checked ⟨.d2 2 3, .lf 1 0 (.range (.lit 1) (.lit 2)), some (.two (.lit 1) (.lit 2))⟩
+    = some [[(0, 0), (0, 1)], [(1, 0), (1, 1)]] := by decide
+example : outcome Cfg.checked ⟨.d2 2 3, .fl .all 1 1, some (.two (.lit 1) (.lit 2))⟩
+    = some [[(0, 1), (1, 1)], [(0, 2), (1, 2)]] := by decide
+
 /-- A subscript on a scalar always makes generation raise. -/
 theorem scalar_subscript_error (cfg : Cfg) (s : Subs) (l : Option LoopRange) :
     outcome cfg ⟨.scalar, s, l⟩ = none := by
@@ -120,7 +289,7 @@ theorem too_many_subscripts_error (cfg : Cfg) (n m : Nat) (a b : FSub) (mul off 
     simp only [outcome]
     cases loopValues cfg r <;> simp [outcomeLoop]
 
-/-- The hypotheses `Safe` / `LoopSafe` cannot be dropped on the tree as it is (findings C23-F1, F2, F3):
+/-- The hypotheses `Safe` / `LoopSafe` could not be dropped on the tree before the fixes (findings C23-F1, F2, F3):
     `x[0:2]` on `Real x[3]` selects nothing, `x[0:3]` selects `x[3]`, `x[2:p]` with `p = -1` selects `x[2]`,
     `x[i-1]` over `i = 1, 2, 3` reads `x[3], x[1], x[2]`, `x[1:2:3]` on `Real x[4]` selects `x[1]` only. -/
 theorem asIs_reinterprets :
@@ -132,7 +301,7 @@ theorem asIs_reinterprets :
     (FSub.range3 (.lit 1) (.lit 2) (.lit 3)).denote 4 = some [1, 3] := by
   decide
 
-/-- …and the same inputs are rejected, respectively read as Modelica says, once the proposed checks are in. -/
+/-- …and the same inputs are rejected, respectively read as Modelica says, on the current tree. -/
 theorem checked_rejects_them :
     fixedSel Cfg.checked 3 3 (.range (.lit 0) (.lit 2)) = none ∧
     fixedSel Cfg.checked 3 3 (.range (.lit 0) (.lit 3)) = none ∧
